@@ -95,7 +95,7 @@ func NewDriver(tag string) *Driver {
 	if base == "" {
 		base = "/dev/shm"
 		if st, err := os.Stat(base); err != nil || !st.IsDir() {
-			base = "/verif/.cache/run"
+			base = filepath.Join(Root, ".cache", "run")
 		}
 	}
 	dir := filepath.Join(base, fmt.Sprintf("kmc-%s-%d", tag, os.Getpid()))
@@ -242,7 +242,7 @@ func (d *Driver) run(sc vsched.Controller, args []string) *Outcome {
 // Binary conformance: the uninstrumented knut binary built from /repo's working tree.
 
 // BinaryPath is where `check` builds the plain binary.
-var BinaryPath = "/verif/.cache/bin/knut-plain"
+var BinaryPath = filepath.Join(Root, ".cache", "bin", "knut-plain")
 
 // RunBinary executes the real binary in the driver's scratch directory.
 func (d *Driver) RunBinary(args ...string) *Outcome {
